@@ -151,26 +151,27 @@ NativeInteger_encode_der(const asn_TYPE_descriptor_t *sd, const void *ptr,
                          int tag_mode, ber_tlv_tag_t tag,
                          asn_app_consume_bytes_f *cb, void *app_key) {
     unsigned long native = *(const unsigned long *)ptr; /* Disable sign ext. */
+    const asn_INTEGER_specifics_t *specs =
+        (const asn_INTEGER_specifics_t *)sd->specifics;
     asn_enc_rval_t erval;
 	INTEGER_t tmp;
-
-#ifdef	WORDS_BIGENDIAN		/* Opportunistic optimization */
-
-	tmp.buf = (uint8_t *)&native;
-	tmp.size = sizeof(native);
-
-#else	/* Works even if WORDS_BIGENDIAN is not set where should've been */
-	uint8_t buf[sizeof(native)];
+	/* One extra octet: an unsigned value with the top bit set needs 00 */
+	uint8_t buf[1 + sizeof(native)];
 	uint8_t *p;
 
 	/* Prepare a fake INTEGER */
-	for(p = buf + sizeof(buf) - 1; p >= buf; p--, native >>= 8)
+	for(p = buf + sizeof(buf) - 1; p > buf; p--, native >>= 8)
 		*p = (uint8_t)native;
+	buf[0] = 0;
 
-	tmp.buf = buf;
-	tmp.size = sizeof(buf);
-#endif	/* WORDS_BIGENDIAN */
-	
+	if(specs && specs->field_unsigned) {
+		tmp.buf = buf;
+		tmp.size = sizeof(buf);
+	} else {
+		tmp.buf = buf + 1;
+		tmp.size = sizeof(buf) - 1;
+	}
+
 	/* Encode fake INTEGER */
 	erval = INTEGER_encode_der(sd, &tmp, tag_mode, tag, cb, app_key);
     if(erval.structure_ptr == &tmp) {
